@@ -325,6 +325,8 @@ def run(ctx):
     ctx.rule("R05.5", "journal file lock released on every exit (shared with C07 R07.3)")
     J.rule_release(ctx, "R05.5")
     J.rule_write_under_lock(ctx, "R05.5")
+    ctx.rule("R05.9", "a worker dying while it WAITS for the journal lock leaves the holder's lock alone: acquire() releases only what this call created")
+    J.rule_release_only_own_lock(ctx, "R05.9")
     ctx.rule("R05.8", "readers survive a torn last record: a line without its newline is skipped (the deferred error is raised only for a further line inside the "
              "size snapshot), and what the reader accepts / caches is what R07.4 / R07.5 state")
     J.rule_reader_guards(ctx, "R05.8", "R05.8")
